@@ -53,6 +53,8 @@ class RefSock(object):
         self.open = True
         self.listen = False
         self.accepted = False
+        self.peer = None
+        self.dead = False   # shut down by the stack (frame reject), still bound
 
 
 class RefTable(object):
@@ -311,7 +313,7 @@ class Net(object):
         sx, ref = self.sx, self.ref
         B = self.remote()
         sb = B.socket(LDL)
-        B.bind(sb)
+        B.bind(sb, 40)      # (connections come from B's address 32)
         src = B.getsockname(sb)
         msgs = [sx.bytes("%s.m%d" % (tag, j), n) for j, n in enumerate(lens)]
         for m in msgs:
@@ -324,6 +326,13 @@ class Net(object):
         """a UI frame with arbitrary address octets arrives at A"""
         sx = self.sx
         m = sx.bytes(tag + ".m", n)
+        peers = sorted(set(r.peer for r in self.ref.socks
+                           if r.open and r.accepted and not r.dead))
+        if peers:
+            sx.assume(sx.all([ssap != p for p in peers]),
+                      "no UI frame from the SSAP of an established connection "
+                      "(DataLinkConnection.enqueue() then waits inside close() "
+                      "in the link thread - a C07 matter)")
         frame = sx.mkbytes([(dsap << 2) | 0, 0xC0 | ssap] + list(m), False)
         self.A.dispatch(pdu.decode(frame))
         d = sx.concrete(dsap)
@@ -337,6 +346,12 @@ class Net(object):
             sx.check(False, what + ":different-socket-kinds-on-one-address")
         if not target or kinds[0] == "DLC":
             self.quiet_except(None, what)
+            for i in target:
+                # a connection-mode socket answers a UI PDU with a frame
+                # reject and shuts down; it keeps its address until closed
+                if self.socks[i].state.SHUTDOWN:
+                    ref.socks[i].dead = True
+                    ref.socks[i].listen = False
             sx.reach("datagram:no-receiver")
             return "dropped"
         i = target[0]
@@ -393,7 +408,8 @@ class Net(object):
         target = None
         if addr is not None:
             for i in ref.at(addr):
-                if ref.socks[i].open and ref.socks[i].listen:
+                if ref.socks[i].open and ref.socks[i].listen \
+                        and not ref.socks[i].dead:
                     target = i
         late = ":name-of-closed-socket" if name in ref.released else ""
         self.quiet_except(target, "connect")
@@ -412,6 +428,7 @@ class Net(object):
         self.socks.append(c)
         j = ref.new("DLC")
         ref.socks[j].accepted = True
+        ref.socks[j].peer = src
         ref.bound(j, addr)
         frames = self.transfer(self.A, B, "connect")
         ccs = [q for f in frames for q in (f if f.name == "AGF" else [f])
@@ -448,7 +465,9 @@ class Net(object):
 # ----------------------------------------------------------------------------
 # generic histories
 # ----------------------------------------------------------------------------
-WINDOWS = [(-1, 1), (3, 5), (30, 33), (62, 64)]
+WINDOWS = [(-1, 0), (31, 33), (63, 64)]
+WINDOWS_RAW = [(-1, 1), (3, 5), (31, 33), (63, 64)]
+WINDOWS_DSAP = [(0, 1), (4, 4), (16, 17), (32, 34), (63, 63)]
 
 OPS_QUICK = [
     ["new_none", "LDL"], ["new_none", "DLC"], ["new_none", "RAW"],
@@ -468,16 +487,24 @@ OPS_THOROUGH = OPS_QUICK + [
 ]
 
 
+OPS_TAIL = [
+    ["new_none", "LDL"], ["new_addr", "RAW"], ["new_name", "DLC", "snep"],
+    ["new_name", "DLC", "a"], ["rebind", "name"], ["listen"], ["close"],
+    ["datagram"], ["resolve", "a"], ["connect", "a"], ["connect", "snep"],
+]
+
+
 def needs_socket(op):
     return op[0] in ("rebind", "listen", "close")
 
 
-def do_op(n, step, op, full_addr=False):
+def do_op(n, step, op, narrow=False):
     sx = n.sx
     tag = "s%d" % step
     k = op[0]
     if needs_socket(op):
-        live = [i for i, r in enumerate(n.ref.socks) if r.open]
+        live = [i for i, r in enumerate(n.ref.socks)
+                if r.open and (k == "close" or not r.dead)]
         if not live:
             return "skip"
         # the most recent socket, or (picked) the oldest one
@@ -489,11 +516,9 @@ def do_op(n, step, op, full_addr=False):
         n.socket(op[1])
         return "socket"
     if k == "new_addr":
-        if full_addr:
-            addr = sx.int(tag + ".addr", -1, 64)
-        else:
-            lo, hi = sx.pick(tag + ".win", WINDOWS)
-            addr = sx.int(tag + ".addr", lo, hi)
+        wins = WINDOWS_RAW if op[1] == "RAW" else WINDOWS
+        lo, hi = (31, 33) if narrow else sx.pick(tag + ".win", wins)
+        addr = sx.int(tag + ".addr", lo, hi)
         return n.bind_addr(n.socket(op[1]), addr)
     if k == "new_name":
         return n.bind_name(n.socket(op[1]), op[2])
@@ -508,10 +533,11 @@ def do_op(n, step, op, full_addr=False):
     if k == "close":
         return n.close(i)
     if k == "datagram":
-        lens = sx.pick(tag + ".lens", [[1], [0, 3]])
-        return n.datagram(sx.int(tag + ".dsap", 0, 63), lens, tag)
+        lo, hi = (32, 34) if narrow else sx.pick(tag + ".win", WINDOWS_DSAP)
+        return n.datagram(sx.int(tag + ".dsap", lo, hi), [1], tag)
     if k == "datagram_raw":
-        return n.datagram_raw(sx.int(tag + ".dsap", 0, 63),
+        lo, hi = (32, 34) if narrow else sx.pick(tag + ".win", WINDOWS_DSAP)
+        return n.datagram_raw(sx.int(tag + ".dsap", lo, hi),
                               sx.int(tag + ".ssap", 0, 63), 2, tag)
     if k == "resolve":
         return n.resolve(op[1])
@@ -522,12 +548,12 @@ def do_op(n, step, op, full_addr=False):
 
 def history(sx, prefix, k, ops):
     """prefix: fixed operations; then up to k picked ones"""
-    table = OPS_QUICK if ops == "quick" else OPS_THOROUGH
+    table = {"quick": OPS_QUICK, "thorough": OPS_THOROUGH, "tail": OPS_TAIL}[ops]
     n = Net(sx)
     out = []
     step = 0
     for op in prefix:
-        out.append(do_op(n, step, op))
+        out.append(do_op(n, step, op, narrow=True))
         n.invariants(step)
         step += 1
     for j in range(k):
@@ -598,16 +624,27 @@ def exhaust_dynamic(sx, tname, k, ops):
     n.close(victim)
     n.invariants(1)
     out = [r]
-    table = OPS_QUICK if ops == "quick" else OPS_THOROUGH
+    va = 32 + victim
     step = 2
     for j in range(k):
-        op = sx.pick("op%d" % step, [None, ["new_none", "DLC"], ["new_addr", "LDL"],
-                                     ["listen"], ["datagram"], ["close"]])
+        op = sx.pick("op%d" % step, [None, "new_none", "new_addr", "listen",
+                                     "datagram", "close"])
         if op is None:
             break
-        if op[0] == "listen":
-            n.socket("DLC")
-        out.append([op, do_op(n, step, op)])
+        if op == "new_none":
+            r = n.bind_none(n.socket("DLC"))
+        elif op == "new_addr":
+            r = n.bind_addr(n.socket("LDL"),
+                            sx.int("s%d.addr" % step, max(va - 1, 31), min(va + 1, 64)))
+        elif op == "listen":
+            r = n.listen(n.socket("DLC"))
+        elif op == "datagram":
+            r = n.datagram(sx.int("s%d.dsap" % step, va - 1, min(va + 1, 63)),
+                           [1], "s%d" % step)
+        else:
+            live = [i for i, x in enumerate(n.ref.socks) if x.open and x.addr]
+            r = n.close(live[(7 * step) % len(live)])
+        out.append([op, r])
         n.invariants(step)
         step += 1
     sx.reach("exhaust-dynamic-end")
@@ -728,15 +765,15 @@ def partitions(tier):
             if needs_socket(op):
                 continue
             parts.append(dict(name="hist:%s" % "-".join(op), fn="history",
-                              params=dict(prefix=[op], k=2, ops="quick")))
+                              params=dict(prefix=[op], k=2, ops="tail")))
     else:
         for op in OPS_THOROUGH:
             if needs_socket(op):
                 continue
-            for op2 in OPS_THOROUGH:
+            for op2 in OPS_QUICK:
                 parts.append(dict(name="hist:%s:%s" % ("-".join(op), "-".join(op2)),
                                   fn="history",
-                                  params=dict(prefix=[op, op2], k=2, ops="quick")))
+                                  params=dict(prefix=[op, op2], k=2, ops="tail")))
     for sc in ("fresh", "some", "closed", "full"):
         for t in ("LDL", "DLC", "RAW"):
             parts.append(dict(name="sweep:%s:%s" % (sc, t), fn="sweep",
@@ -774,3 +811,4 @@ OUTSIDE = ["operations on closed sockets", "service names outside the alphabet (
 ASSUMPTIONS = ["env.llcp: Condition.wait() without time-out raises WouldBlock; random.choice returns the first element",
                "reference address table RefTable (harness) is the independent reading of the property; errno pinned for EADDRINUSE/EACCES/EFAULT/EAGAIN only, a second bind of a bound socket and exhaustion of 16-31 only require an nfc.llcp.Error",
                "the remote controller B is a fresh LogicalLinkController per exchange, linked by collect()/encode/decode/dispatch()"]
+LIMITS = {"quick": dict(max_time=120), "thorough": dict(max_time=1500)}
